@@ -13,9 +13,9 @@ import Robsd.Model.Conf
   exact difference between the documented and the accepted keywords.
   Completeness (every statement list of the value-keyword fragment is accepted,
   in any order, with every variable at its configured value or default) is
-  proved at the token level in Props/C08Complete.lean.  NOT proved (kept as
-  the correspondence's job, see DESIGN.md): the same for regress/step
-  statements with option words and for the text-to-token layer.
+  proved at the token level in Props/C08Complete.lean and from the text (plain
+  layout) in Props/C08Lex.lean.  NOT proved (kept as the correspondence's job,
+  see DESIGN.md): the same for regress/step statements with option words.
 -/
 namespace Robsd
 namespace C08
